@@ -125,3 +125,9 @@ Theorem C14_cardinalDirection_predicates p0 p1 :
   (isIncreasingCard k = true <-> (Qabs dy <= Qabs dx /\ 0 < dx) \/ (Qabs dx < Qabs dy /\ 0 < dy)).
 Proof. exact (cardinalDirection_predicates p0 p1). Qed.
 Print Assumptions C14_cardinalDirection_predicates.
+
+(* card_flip of the statements above = cardFlip of C18's model (SepPairModel.v) under the enumerator numbering *)
+Theorem C14_card_flip_is_model_cardFlip d :
+  card_to_Z (Adapt.Dialect.SepPairModel.cardFlip d) = card_flip (card_to_Z d) /\ is_card (card_to_Z d).
+Proof. exact (card_flip_is_model_cardFlip d). Qed.
+Print Assumptions C14_card_flip_is_model_cardFlip.
